@@ -37,7 +37,7 @@ EndedAt(x, C, n) == n >= 0 /\ (x \div C) >= n + 1 /\ x > F32Round(C * (n + 1))
 
 PhaseSafe(m, t) ==
   LET x == t - m.del IN
-  IF x < 0 \/ m.rep = -1 \/ m.rep = -2 THEN PhaseImpl(m, t)
+  IF x < 0 \/ m.rep = -1 \/ m.rep = -2 \/ m.rep = -3 THEN PhaseImpl(m, t)
   ELSE IF EndedAt(x, m.cyc, m.rep)
        THEN [k |-> "end", pn |-> IF m.rev THEN 0 ELSE 1, pd |-> 1, rp |-> FALSE, rv |-> FALSE]
        ELSE PhaseImpl([m EXCEPT !.rep = -2], t)         \* not ended: same as an infinite repeat
